@@ -582,4 +582,113 @@ theorem mpz_set_ok {s : St} (h : Inv s) {w u : Nat} (hw : w < s.nv) (hu : u < s.
   · rw [hput.2.2, ← v1 u hu, value_eq_sgnv, sz1]
     unfold sgnv; by_cases h0 : s.size u < 0 <;> simp [h0]
 
+/-! ### temporaries -/
+
+theorem load_length {s : St} {p n : Nat} {l : List Nat} (h : s.load p n = .ok l) : l.length = n := by
+  unfold St.load at h
+  cases hb : s.blk p with
+  | none => rw [hb] at h; simp at h
+  | some b =>
+    rw [hb] at h; simp only [] at h
+    split at h
+    · next hn => cases h; simp; omega
+    · simp at h
+
+theorem load_Limbs {s : St} (hs : Inv s) {i n : Nat} (hi : i < s.nv) {l : List Nat}
+    (h : s.load (s.ptr i) n = .ok l) : Limbs l := by
+  obtain ⟨b, hb, _, hL⟩ := hs.live i hi
+  unfold St.load at h; rw [hb] at h; simp only [] at h
+  split at h
+  · cases h; exact Limbs_take hL _
+  · simp at h
+
+theorem load_of_blk {s : St} {p : Nat} {l : List Nat} (h : s.blk p = some l) : s.load p l.length = .ok l := by
+  unfold St.load; rw [h]; simp
+
+theorem copyIf_spec {s : St} (h : Inv s) (c : Bool) {p n : Nat} {l : List Nat} (hl : s.load p n = .ok l) :
+    ∃ p' s', s.copyIf c p n = .ok (p', s') ∧ Inv s' ∧ Ext s s' ∧ s'.load p' n = .ok l ∧
+      (c = true → p' = s.next ∧ s'.next = s.next + 1) ∧ (c = false → p' = p ∧ s' = s) := by
+  cases c
+  · exact ⟨p, s, by simp [St.copyIf, pure, Except.pure], h, Ext.refl s, hl, by simp, by simp⟩
+  · refine ⟨s.next, (s.malloc l).2, ?_, malloc_inv h l, malloc_ext h l, ?_, by simp [St.malloc], by simp⟩
+    · simp only [St.copyIf, St.tmpCopy, bind, Except.bind, hl, pure, Except.pure, if_true]
+      rfl
+    · have := load_of_blk (malloc_blk_new s l)
+      rwa [load_length hl] at this
+
+theorem tmpInit_spec {s : St} (h : Inv s) (n : Nat) :
+    (s.tmpInit n).1 = s.nv ∧ Inv (s.tmpInit n).2 ∧ (s.tmpInit n).2.nv = s.nv + 1 ∧
+    (∀ i, i < s.nv → (s.tmpInit n).2.value i = s.value i ∧ (s.tmpInit n).2.size i = s.size i) ∧
+    (s.tmpInit n).2.alloc s.nv = n ∧ (s.tmpInit n).2.value s.nv = 0 := by
+  have hvars : ∀ i, (s.tmpInit n).2.vars i = if i = s.nv then { alloc := n, size := 0, ptr := s.next } else s.vars i :=
+    fun i => by simp [St.tmpInit, St.tmpAlloc, St.malloc, St.setVar, St.setBlk]
+  have hblk : ∀ q, (s.tmpInit n).2.blk q = if q = s.next then some (List.replicate n junk) else s.blk q :=
+    fun q => by simp [St.tmpInit, St.tmpAlloc, St.malloc, St.setVar, St.setBlk]
+  have hnext : (s.tmpInit n).2.next = s.next + 1 := by simp [St.tmpInit, St.tmpAlloc, St.malloc, St.setVar, St.setBlk]
+  have hnv : (s.tmpInit n).2.nv = s.nv + 1 := by simp [St.tmpInit]
+  have hvo : ∀ i, i < s.nv → (s.tmpInit n).2.vars i = s.vars i := fun i hi => by
+    rw [hvars]; rw [if_neg (by omega)]
+  have hbo : ∀ i, i < s.nv → (s.tmpInit n).2.blk (s.ptr i) = s.blk (s.ptr i) := fun i hi => by
+    rw [hblk, if_neg (Nat.ne_of_lt (h.lt i hi))]
+  have hval : ∀ i, i < s.nv → (s.tmpInit n).2.value i = s.value i := fun i hi => value_congr (hvo i hi) (hbo i hi)
+  have hnew : (s.tmpInit n).2.vars s.nv = { alloc := n, size := 0, ptr := s.next } := by rw [hvars]; simp
+  have hval_new : (s.tmpInit n).2.value s.nv = 0 := by
+    unfold St.value St.mag St.limbs St.size; rw [hnew]; simp
+  refine ⟨rfl, ⟨fun i hi => ?_, fun i j hi hj e => ?_, fun i hi => ?_, fun q hq => ?_, fun i hi => ?_, fun i hi => ?_⟩,
+    hnv, fun i hi => ⟨hval i hi, by unfold St.size; rw [hvo i hi]⟩, by unfold St.alloc; rw [hnew], hval_new⟩
+  · rw [hnv] at hi
+    by_cases hin : i = s.nv
+    · subst hin
+      refine ⟨List.replicate n junk, ?_, ?_, Limbs_replicate_junk n⟩
+      · unfold St.ptr; rw [hnew, hblk]; simp
+      · unfold St.alloc; rw [hnew]; simp
+    · have hi' : i < s.nv := by omega
+      obtain ⟨b, hb, hbl, hbL⟩ := h.live i hi'
+      refine ⟨b, ?_, ?_, hbL⟩
+      · have : (s.tmpInit n).2.ptr i = s.ptr i := by unfold St.ptr; rw [hvo i hi']
+        rw [this, hbo i hi', hb]
+      · unfold St.alloc; rw [hvo i hi']; exact hbl
+  · rw [hnv] at hi hj
+    have hp : ∀ k, k < s.nv → (s.tmpInit n).2.ptr k = s.ptr k := fun k hk => by unfold St.ptr; rw [hvo k hk]
+    have hpn : (s.tmpInit n).2.ptr s.nv = s.next := by unfold St.ptr; rw [hnew]
+    by_cases hin : i = s.nv <;> by_cases hjn : j = s.nv
+    · rw [hin, hjn]
+    · rw [hin, hpn, hp j (by omega)] at e; exact absurd e.symm (Nat.ne_of_lt (h.lt j (by omega)))
+    · rw [hjn, hpn, hp i (by omega)] at e; exact absurd e (Nat.ne_of_lt (h.lt i (by omega)))
+    · rw [hp i (by omega), hp j (by omega)] at e; exact h.inj i j (by omega) (by omega) e
+  · rw [hnv] at hi; rw [hnext]
+    by_cases hin : i = s.nv
+    · subst hin; unfold St.ptr; rw [hnew]; simp
+    · have : (s.tmpInit n).2.ptr i = s.ptr i := by unfold St.ptr; rw [hvo i (by omega)]
+      rw [this]; have := h.lt i (by omega); omega
+  · rw [hnext] at hq; rw [hblk, if_neg (by omega)]; exact h.fresh q (by omega)
+  · rw [hnv] at hi
+    by_cases hin : i = s.nv
+    · subst hin; unfold St.size St.alloc; rw [hnew]; simp
+    · unfold St.size St.alloc; rw [hvo i (by omega)]; exact h.fits i (by omega)
+  · rw [hnv] at hi
+    by_cases hin : i = s.nv
+    · subst hin; rw [hval_new]; unfold St.size; rw [hnew]; simp [siz, DivZ.sizeNat_eq_zero.mpr rfl]
+    · rw [hval i (by omega)]; unfold St.size; rw [hvo i (by omega)]; exact h.norm i (by omega)
+
+theorem tmpDone_spec {s : St} (h : Inv s) (k : Nat) (hk : s.nv = k + 1) :
+    Inv s.tmpDone ∧ s.tmpDone.nv = k ∧ ∀ i, i < k → s.tmpDone.value i = s.value i := by
+  have hnv : s.tmpDone.nv = k := by simp [St.tmpDone, hk]
+  have hbo : ∀ i, i < k → s.tmpDone.blk (s.ptr i) = s.blk (s.ptr i) := fun i hi => by
+    have : s.ptr i ≠ s.ptr (s.nv - 1) := fun e => by
+      have := h.inj i (s.nv - 1) (by omega) (by omega) e; omega
+    simp [St.tmpDone, St.free, St.setBlk, this]
+  have hval : ∀ i, i < k → s.tmpDone.value i = s.value i := fun i hi => value_congr rfl (hbo i hi)
+  refine ⟨⟨fun i hi => ?_, fun i j hi hj e => ?_, fun i hi => ?_, fun q hq => ?_, fun i hi => ?_, fun i hi => ?_⟩, hnv, hval⟩
+  · rw [hnv] at hi
+    obtain ⟨b, hb, hbl, hbL⟩ := h.live i (by omega)
+    exact ⟨b, by rw [show s.tmpDone.ptr i = s.ptr i from rfl, hbo i hi, hb], hbl, hbL⟩
+  · rw [hnv] at hi hj; exact h.inj i j (by omega) (by omega) e
+  · rw [hnv] at hi; exact h.lt i (by omega)
+  · by_cases e : q = s.ptr (s.nv - 1)
+    · simp [St.tmpDone, St.free, St.setBlk, e]
+    · simp only [St.tmpDone, St.free, St.setBlk, e, if_false]; exact h.fresh q hq
+  · rw [hnv] at hi; exact h.fits i (by omega)
+  · rw [hnv] at hi; rw [hval i hi]; exact h.norm i (by omega)
+
 end Mpir.AliasMem
